@@ -245,6 +245,13 @@ impl<S: Read + Write> Client<S> {
         }
     }
 
+    /// Verification hook: build an x224 layer directly over a transport
+    /// (public alias of the private constructor)
+    #[cfg(feature = "verif-hooks")]
+    pub fn from_transport(transport: tpkt::Client<S>, selected_protocol: Protocols) -> Self {
+        Client::new(transport, selected_protocol)
+    }
+
     /// Getter for selected protocols
     pub fn get_selected_protocols(&self) -> Protocols {
         self.selected_protocol
